@@ -53,12 +53,17 @@ type c17cfg struct {
 	errorOnly bool
 	threads   int
 	stderr    bool // the threads write to the wrapper handed out for stderr instead of the one for stdout
+	pipe      bool // every command has a second writer (the other end of a pipeline, a background job) that writes one whole line to the command's stderr wrapper while the first writes to its stdout wrapper
+	small     bool // one text, one chunking (used where the schedule space, not the input space, is the subject)
 }
 
 func (c c17cfg) name() string {
 	n := fmt.Sprintf("direct/%s/begin=%v/end=%v/error_only=%v/threads=%d", c.mode, c.begin, c.end, c.errorOnly, c.threads)
 	if c.stderr {
 		n += "/stderr"
+	}
+	if c.pipe {
+		n += "/two-writers-per-command"
 	}
 	return n
 }
@@ -80,9 +85,18 @@ func c17Direct(c c17cfg) *Unit {
 		if c.threads == 3 {
 			texts = []string{"", l + "1\n", l + "1\n" + l + "2"}
 		}
+		if c.pipe {
+			texts = []string{"", l + "1\n", l + "1\n" + l + "2\n"}
+		}
+		if c.small {
+			texts = []string{l + "1\n" + l + "2\n"}
+		}
 		for _, t := range texts {
 			for _, ch := range chunkings(t) {
 				if c.threads == 3 && len(ch) > 2 {
+					continue
+				}
+				if c.pipe && (len(ch) > 2 || (c.mode == "prefixed" && !wholeLines(ch)) || (c.small && len(ch) != 2)) {
 					continue
 				}
 				cs = append(cs, choice{t, ch})
@@ -122,6 +136,7 @@ func c17Direct(c c17cfg) *Unit {
 				fails[i] = kinds[i] != 0
 			}
 			x.Aux[fmt.Sprintf("in%d", i)] = fmt.Sprintf("%q fail=%v", picks[i].chunks, fails[i])
+			x.Aux[fmt.Sprintf("chunks%d", i)] = strings.Join(picks[i].chunks, "\x00")
 		}
 		x.Aux["texts"] = ""
 		var g vsched.Group
@@ -135,9 +150,17 @@ func c17Direct(c c17cfg) *Unit {
 				if c.stderr {
 					w = we
 				}
+				var side vsched.Group
+				if c.pipe {
+					side.Go(func() error {
+						we.Write([]byte(letters[i] + "9\n"))
+						return nil
+					})
+				}
 				for _, ch := range picks[i].chunks {
 					w.Write([]byte(ch))
 				}
+				side.Wait()
 				var err error
 				if kinds[i] == 2 {
 					err = fmt.Errorf("task: command was cancelled: %w", context.Canceled)
@@ -181,6 +204,9 @@ func c17Direct(c c17cfg) *Unit {
 				}
 				blocks = append(blocks, b)
 			}
+			if c.pipe {
+				return append(out, c17PipeGroup(c, letters, x, stream)...)
+			}
 			if !isPermutationConcat(stream, blocks) {
 				kind := "torn_or_lost"
 				if len(stream) == totalLen(blocks) {
@@ -207,7 +233,7 @@ func c17Direct(c c17cfg) *Unit {
 			}
 			p := strings.ToLower(line[1:2])
 			body := line[4:]
-			if strings.Trim(body, p+"125% d") != "" {
+			if strings.Trim(body, p+"1259% d") != "" {
 				out = append(out, vlab.V("C17", "prefixed_line", "foreign_bytes", fmt.Sprintf("line %q carries prefix %s but bytes of another command (stream %q)", line, p, stream)))
 				return out
 			}
@@ -218,6 +244,14 @@ func c17Direct(c c17cfg) *Unit {
 			want := text
 			if want != "" && !strings.HasSuffix(want, "\n") {
 				want += "\n"
+			}
+			if c.pipe {
+				// the side writer's line may land anywhere between the first writer's lines
+				if strings.Count(got[l], l+"9\n") == 1 {
+					got[l] = strings.Replace(got[l], l+"9\n", "", 1)
+				} else {
+					got[l] += "<side line missing or duplicated>"
+				}
 			}
 			if got[l] != want {
 				kind := "lost"
@@ -230,6 +264,59 @@ func c17Direct(c c17cfg) *Unit {
 		return out
 	}
 	return &Unit{Name: sc.Name, Sc: sc, Bound: -1, Prune: true, Env: true, Check: check, Weight: 3}
+}
+
+func wholeLines(chunks []string) bool {
+	for _, c := range chunks {
+		if !strings.HasSuffix(c, "\n") {
+			return false
+		}
+	}
+	return true
+}
+
+// two writers per command under output group: each command's block holds the first writer's
+// chunks in order with the second writer's line somewhere between them (at write granularity).
+func c17PipeGroup(c c17cfg, letters []string, x *vlab.Exec, stream string) []vlab.Violation {
+	var alts [][]string // per command: the admissible blocks
+	for i, l := range letters {
+		var chunks []string
+		if cs := x.Aux[fmt.Sprintf("chunks%d", i)]; cs != "" {
+			chunks = strings.Split(cs, "\x00")
+		}
+		failed := x.Aux[fmt.Sprintf("fail%d", i)] == "true"
+		if c.errorOnly && !failed {
+			continue
+		}
+		var bs []string
+		for pos := 0; pos <= len(chunks); pos++ {
+			b := strings.Join(chunks[:pos], "") + l + "9\n" + strings.Join(chunks[pos:], "")
+			if c.begin {
+				b = "<" + strings.ToUpper(l) + "\n" + b
+			}
+			if c.end {
+				b += ">" + strings.ToUpper(l) + "\n"
+			}
+			bs = append(bs, b)
+		}
+		alts = append(alts, bs)
+	}
+	var try func(k int, chosen []string) bool
+	try = func(k int, chosen []string) bool {
+		if k == len(alts) {
+			return isPermutationConcat(stream, chosen)
+		}
+		for _, b := range alts[k] {
+			if try(k+1, append(append([]string{}, chosen...), b)) {
+				return true
+			}
+		}
+		return false
+	}
+	if !try(0, nil) {
+		return []vlab.Violation{vlab.V("C17", "group_block", "group:two_writers:torn_or_lost", fmt.Sprintf("stream %q is not a sequence of whole blocks holding each command's writes (inputs %v)", stream, auxInputs(x)))}
+	}
+	return nil
 }
 
 func auxInputs(x *vlab.Exec) []string {
@@ -338,6 +425,7 @@ func c17Units(tier string) []*Unit {
 	us = append(us, c17Direct(c17cfg{mode: "group", begin: true, end: true, threads: 3}))
 	us = append(us, c17Direct(c17cfg{mode: "prefixed", threads: 2}))
 	us = append(us, c17Direct(c17cfg{mode: "prefixed", threads: 2, stderr: true}), c17Direct(c17cfg{mode: "group", begin: true, end: true, threads: 2, stderr: true}))
+	us = append(us, c17Direct(c17cfg{mode: "prefixed", threads: 2, pipe: true}), c17Direct(c17cfg{mode: "group", begin: true, end: true, threads: 2, pipe: true}))
 	if tier == "thorough" {
 		us = append(us, c17Direct(c17cfg{mode: "prefixed", threads: 3}))
 	}
